@@ -1,3 +1,206 @@
 import GnpyModel
-/- Property theorems for C18 (only the property theorems and their non-vacuity examples live here;
-   helper lemmas go to GnpyProofs/Lemmas). -/
+import GnpyProofs.Lemmas.Round
+import GnpyProofs.Lemmas.Yang
+/- Property theorems for C18 — input documents mean the same thing in legacy and YANG form.
+   Models: GnpyModel/Round.lean (decimal formatting), GnpyModel/Json.lean, GnpyModel/Yang.lean.
+   Only the property theorems and their non-vacuity examples live here; helper lemmas are in
+   GnpyProofs/Lemmas/{Round,Json,Yang}.lean. -/
+namespace Gnpy.Round
+
+/-- **values are preserved to the declared precision.**  The text printed for a double `x` with `d`
+declared fraction digits denotes the decimal `R / 10^d` (`R = roundDigits x d`); it differs from the
+exact binary value of `x` by at most half a unit of the last declared digit. -/
+theorem fmt_error_bound (x : Dyadic) (d : Nat) :
+    |(roundDigits x d : ℚ) / (10 : ℚ) ^ d - x.absVal| ≤ 1 / 2 / (10 : ℚ) ^ d := by
+  obtain ⟨hpos, hval⟩ := scaled_spec x d
+  have he := roundHalfEvenDiv_err (scaled x d).1 (scaled x d).2 hpos
+  rw [hval] at he
+  have hp : (0 : ℚ) < (10 : ℚ) ^ d := by positivity
+  unfold roundDigits
+  simp only
+  have : ((roundHalfEvenDiv (scaled x d).1 (scaled x d).2 : ℚ)) / (10 : ℚ) ^ d - x.absVal
+      = ((roundHalfEvenDiv (scaled x d).1 (scaled x d).2 : ℚ) - x.absVal * (10 : ℚ) ^ d) / (10 : ℚ) ^ d := by
+    field_simp
+  rw [this, abs_div, abs_of_pos hp]
+  exact div_le_div_of_nonneg_right he (le_of_lt hp)
+
+/-- **a second pass changes nothing.**  Any double `y` that lies strictly within half a unit of the
+last declared digit of the decimal printed for `x` (in particular the double `float(text)` that
+`convert_back` reads, as long as |x|·10^d < 2^52) is printed with the same digits again. -/
+theorem fmt_fixpoint (x y : Dyadic) (d : Nat)
+    (h : |y.absVal - (roundDigits x d : ℚ) / (10 : ℚ) ^ d| < 1 / 2 / (10 : ℚ) ^ d) :
+    roundDigits y d = roundDigits x d := by
+  obtain ⟨hpos, hval⟩ := scaled_spec y d
+  have hp : (0 : ℚ) < (10 : ℚ) ^ d := by positivity
+  show roundHalfEvenDiv (scaled y d).1 (scaled y d).2 = roundDigits x d
+  apply roundHalfEvenDiv_unique _ _ _ hpos
+  rw [hval]
+  have : ((roundDigits x d : ℚ)) - y.absVal * (10 : ℚ) ^ d
+      = -((y.absVal - (roundDigits x d : ℚ) / (10 : ℚ) ^ d) * (10 : ℚ) ^ d) := by
+    field_simp
+    ring
+  rw [this, abs_neg, abs_mul, abs_of_pos hp]
+  calc |y.absVal - (roundDigits x d : ℚ) / (10 : ℚ) ^ d| * (10 : ℚ) ^ d
+      < 1 / 2 / (10 : ℚ) ^ d * (10 : ℚ) ^ d := mul_lt_mul_of_pos_right h hp
+    _ = 1 / 2 := by field_simp
+
+/-- printing is a fixpoint on values that already have at most `d` digits: R/10^d prints as R -/
+theorem fmt_exact (x : Dyadic) (d R : Nat) (h : x.absVal = (R : ℚ) / (10 : ℚ) ^ d) :
+    roundDigits x d = R := by
+  obtain ⟨hpos, hval⟩ := scaled_spec x d
+  have hp : (0 : ℚ) < (10 : ℚ) ^ d := by positivity
+  show roundHalfEvenDiv (scaled x d).1 (scaled x d).2 = R
+  apply roundHalfEvenDiv_unique _ _ _ hpos
+  rw [hval, h]
+  have : (R : ℚ) - (R : ℚ) / (10 : ℚ) ^ d * (10 : ℚ) ^ d = 0 := by field_simp; ring
+  rw [this]; norm_num
+
+/-- non-vacuity: 0.125 printed with two digits is the tie 12.5 → "0.12" (half-even), and the bound
+    is attained -/
+example : roundDigits ⟨false, 1, -3⟩ 2 = 12 := by decide
+example : fmtBits 4593671619917905920 2 = some "0.12" := by decide
+example : fmtBits 4600427019358961664 2 = some "0.38" := by decide
+
+end Gnpy.Round
+
+namespace Gnpy.Yang
+open Gnpy
+
+/-! ### nulls -/
+
+/-- **`None ↔ [None]` are inverse.**  For every legacy tree (no `[null]` list in it) turning every
+null into `[null]` and back gives the tree again; -/
+theorem none_empty_inverse (j : J) (h : noBoxedNull j = true) : emptyToNone (noneToEmpty j) = j :=
+  emptyToNone_noneToEmpty j h
+
+/-- and `convert_none_to_empty` is idempotent on every tree (first step of `legacy_to_yang`) -/
+theorem none_to_empty_idempotent (j : J) : noneToEmpty (noneToEmpty j) = noneToEmpty j :=
+  noneToEmpty_idem j
+
+example : noBoxedNull (.obj [("out_voa", .null), ("amps", .arr [.null, .flt 3])]) = true := by decide
+example : emptyToNone (noneToEmpty (.obj [("out_voa", .null), ("amps", .arr [.null, .flt 3])]))
+    = .obj [("out_voa", .null), ("amps", .arr [.null, .flt 3])] := by decide
+
+/-! ### decimal strings: second pass of `convert_dict` -/
+
+/-- **`convert_dict` is idempotent.**  If the first pass succeeded and left no binary float behind
+(it leaves one only for an integer stored under a string-typed key, which libyang refuses), a second
+pass with the same declared digits returns the same tree: strings are kept, integers under
+integer-typed keys are kept. -/
+theorem convert_dict_idempotent (rp rp' : List (Nat × String)) (fd : Int) (j r : J)
+    (h : convertDict rp fd j = .ok r) (hn : noFlt r = true) : convertDict rp' fd r = .ok r :=
+  convertDict_second rp rp' fd j r h hn
+
+example : convertDict [] 2 (.obj [("gain_target", .flt 4625619029774565376), ("N", .int 3), ("loss", .int 2)])
+    = .ok (.obj [("gain_target", .str "17.5"), ("N", .int 3), ("loss", .str "2.0")]) := by decide
+
+/-! ### SI / Span power ranges (finding F6) -/
+
+/-- `[min, max, step]` → dict → `[min, max, step]` for one SI/Span entry: the list comes back, the
+dict form is gone, every other key is untouched -/
+theorem range_roundtrip (lk dk : String) (hne : lk ≠ dk) (e : Dict) (a b c : J)
+    (h1 : e.get? lk = some (.arr [a, b, c])) (h2 : e.get? dk = none) :
+    ∃ y e', rangeToYang lk dk e = .ok y ∧ rangeToLegacy lk dk y = .ok e' ∧
+      e'.get? lk = some (.arr [a, b, c]) ∧ e'.get? dk = none ∧
+      ∀ k, k ≠ lk → k ≠ dk → e'.get? k = e.get? k := by
+  have hhas : e.has dk = false := (Dict.has_false_iff e dk).2 h2
+  refine ⟨(e.set dk (.obj [("min_value", a), ("max_value", b), ("step", c)])).erase lk, ?_⟩
+  have hy : rangeToYang lk dk e
+      = .ok ((e.set dk (.obj [("min_value", a), ("max_value", b), ("step", c)])).erase lk) := by
+    simp [rangeToYang, hhas, h1, rangeToDict, idx, bind, Except.bind, pure, Except.pure]
+  have hget : ((e.set dk (.obj [("min_value", a), ("max_value", b), ("step", c)])).erase lk).get? dk
+      = some (.obj [("min_value", a), ("max_value", b), ("step", c)]) := by
+    rw [Dict.get?_erase_other _ _ _ hne, Dict.get?_set_same]
+  refine ⟨((((e.set dk (.obj [("min_value", a), ("max_value", b), ("step", c)])).erase lk).set lk
+      (.arr [a, b, c])).erase dk), hy, ?_, ?_, ?_, ?_⟩
+  · simp [rangeToLegacy, hget, asObj, Dict.get, Dict.get?, bind, Except.bind, pure, Except.pure]
+  · rw [Dict.get?_erase_other _ _ _ (Ne.symm hne), Dict.get?_set_same]
+  · rw [Dict.get?_erase_same]
+  · intro k hk1 hk2
+    rw [Dict.get?_erase_other _ _ _ (Ne.symm hk2), Dict.get?_set_other _ _ _ _ (Ne.symm hk1),
+      Dict.get?_erase_other _ _ _ (Ne.symm hk1), Dict.get?_set_other _ _ _ _ (Ne.symm hk2)]
+
+/-- a two-entry SI list (the shape of `eqpt_config_multiband.json`) -/
+def f6Doc : Dict :=
+  [("SI", .arr [.obj [("power_range_db", .arr [.int 0, .int 0, .int 1])],
+                .obj [("type_variety", .str "lband"), ("power_range_db", .arr [.int (-2), .int 1, .int 1])]])]
+
+/-- **F6: the property fails for the code as it is.**  After `convert_delta_power_range` and
+`convert_back_delta_power_range` the SECOND SI entry still has `power_range_dict_db` and no
+`power_range_db`. -/
+theorem delta_power_range_fails_current :
+    (convertDeltaPowerRange f6Doc >>= convertBackDeltaPowerRange)
+      = .ok [("SI", .arr [.obj [("power_range_db", .arr [.int 0, .int 0, .int 1])],
+          .obj [("type_variety", .str "lband"),
+                ("power_range_dict_db", .obj [("min_value", .int (-2)), ("max_value", .int 1), ("step", .int 1)])]])] := by
+  decide
+
+/-- the repaired converter (every entry converted back) restores the document -/
+theorem delta_power_range_fixed_witness :
+    (convertDeltaPowerRange f6Doc >>= convertBackDeltaPowerRangeAll) = .ok f6Doc := by
+  decide
+
+/-! ### Raman efficiency of the equipment library (finding F7) -/
+
+def f7Entry : Dict :=
+  [("type_variety", .str "SSMF"),
+   ("raman_efficiency", .obj [("cr", .arr [.int 0, .int 1]), ("frequency_offset", .arr [.int 0, .int 5])])]
+
+/-- **F7: the property fails for the code as it is.**  `raman_efficiency` goes to YANG and comes
+back under another key (`raman_coefficient`, without reference frequency), which the loader
+`json_io.Fiber` does not read. -/
+theorem raman_efficiency_fails_current :
+    (ramanEffToYang f7Entry >>= ramanEffToLegacy)
+      = .ok [("type_variety", .str "SSMF"),
+             ("raman_coefficient", .obj [("g0", .arr [.int 0, .int 1]), ("frequency_offset", .arr [.int 0, .int 5])])] := by
+  decide
+
+/-! ### aliases -/
+
+/-- **every alias yields an entry with identical parameters whose reported name is that alias.**
+For an entry with `other_name = names` (strings) and name `s`, the library receives, for each
+`a ∈ names ++ [s]`, exactly the entry `(a, kwargs)` where `kwargs` is the declaring entry without
+`other_name` and with `type_variety = a`; in particular all parameters other than the name agree. -/
+theorem alias_entries (entry : Dict) (names : List String) (s : String)
+    (ho : entry.get? "other_name" = some (.arr (names.map J.str)))
+    (hs : entry.get? "type_variety" = some (.str s)) :
+    ∃ out, expandAliases entry = .ok out ∧
+      out.map (·.1) = names ++ [s] ∧
+      ∀ nd ∈ out, nd.2.get? "type_variety" = some (.str nd.1) ∧ nd.2.get? "other_name" = none ∧
+        ∀ k, k ≠ "type_variety" → k ≠ "other_name" → nd.2.get? k = entry.get? k := by
+  have hhas : entry.has "other_name" = true := (Dict.has_true_iff _ _).2 ⟨_, ho⟩
+  have hstr : ∀ l : List String, strList (l.map J.str) = .ok l := by
+    intro l
+    induction l with
+    | nil => rfl
+    | cons x xs ih => simp [strList, ih, bind, Except.bind, pure, Except.pure]
+  have hnames : aliasNames entry = .ok (names ++ [s]) := by
+    simp [aliasNames, hs, Dict.get, ho, asArr, hstr names, bind, Except.bind, pure, Except.pure]
+  refine ⟨(names ++ [s]).map (fun n => (n, (entry.set "type_variety" (.str n)).erase "other_name")), ?_, ?_, ?_⟩
+  · simp [expandAliases, hhas, hnames, bind, Except.bind, pure, Except.pure]
+  · simp [List.map_map, Function.comp_def]
+  · intro nd hnd
+    simp only [List.mem_map] at hnd
+    obtain ⟨n, _, rfl⟩ := hnd
+    refine ⟨?_, ?_, ?_⟩
+    · rw [Dict.get?_erase_other _ _ _ (by decide), Dict.get?_set_same]
+    · rw [Dict.get?_erase_same]
+    · intro k hk1 hk2
+      rw [Dict.get?_erase_other _ _ _ (Ne.symm hk2), Dict.get?_set_other _ _ _ _ (Ne.symm hk1)]
+
+/-- the corpus witness: `T0` with aliases `A`, `B` -/
+def t0Entry : Dict :=
+  [("type_variety", .str "T0"), ("other_name", .arr [.str "A", .str "B"]), ("mode", .arr [])]
+
+/-- **F4 (repaired in /repo): the Transceiver code before the repair fails the property** – the
+entries stored under `A`, `B`, `T0` reported the names `T0`, `A`, `B`. -/
+theorem alias_fails_pre_fix :
+    (expandAliasesF4 t0Entry).map (fun l => l.map (fun nd => (nd.1, nd.2.get? "type_variety")))
+      = .ok [("A", some (.str "T0")), ("B", some (.str "A")), ("T0", some (.str "B"))] := by
+  decide
+
+example : (expandAliases t0Entry).map (fun l => l.map (fun nd => (nd.1, nd.2.get? "type_variety")))
+      = .ok [("A", some (.str "A")), ("B", some (.str "B")), ("T0", some (.str "T0"))] := by
+  decide
+
+end Gnpy.Yang
